@@ -131,12 +131,12 @@ def run(R):
         b = tonic.body(re.compile(r'codec::encode::EncodedBytes<T, U> as .*Stream>::poll_next$'))
         R.saw(b)
         # every place an Err item is built (where it is built decides under which guards it can be returned)
-        err_rets = [(bb, b.origin(ops[0])) for bb, i, p, a, ops in mirlib.aggregates(b, 'result::Result', 'Err')]
+        err_rets = [(bb, b.origin(ops[0])) for bb, i, p, a, ops in returned_aggs(b, 'result::Result', 'Err')]
         for bb in writers_of(b, 0):
             for w in block_writes(b, bb, 0):
                 if w[0] == 'call' and w[3] == 'from_residual':
                     err_rets.append((bb, ('call', 'from_residual', [], 'from_residual', None)))
-        R.floor('C06.R3', 'error returns', len(err_rets), 3)
+        R.floor('C06.R3', 'error returns', len(err_rets), 2)
         for bb, payload in err_rets:
             src = 'stash' if term_contains(payload, lambda x: is_call(x, name='take')) else ('encode_item' if term_contains(payload, lambda x: is_call(x, name='encode_item')) else ('source' if term_contains(payload, lambda x: is_call(x, name='poll_next')) else '?'))
             gs = b.edge_guards(bb)
@@ -157,23 +157,26 @@ def run(R):
             R.check(bool(nxt), 'C06.R3', 'stash-then-flush', site(b, bb, i), 'a stored error is followed by flushing the buffer (split_to sites dominated: %d)' % len(nxt))
         # failure arm of encode_item: truncate to the offset saved before the call
         eb, et = b.call1(name='encode_item')
-        fail_region = [x for x in sorted(b.live_blocks()) if any('encode_item' in show(tm) and 'discr(' in show(tm) and vals == [1] for s, vals, tm in b.edge_guards(x))]
-        splits = [(x, t) for x, t in b.calls(name='split_to') if x in fail_region]
-        truncs = [(x, t) for x, t in b.calls(name='truncate') if x in fail_region]
-        for x, t in splits:
+        # what can follow a failed encode_item (its result known to be Err on the path), without passing a truncate
+        dest = et['dest']['l']
+        truncs = [(x, t) for x, t in b.calls(name='truncate') if mentions_local_named(b, b.origin(t['args'][0]), 'buf')]
+        after_fail = b.reach_ps(et['t'], know0={dest: ('v', 'Err', None)})
+        uncut = b.reach_ps(et['t'], know0={dest: ('v', 'Err', None)}, removed={x for x, _ in truncs})
+        exits = [x for x in sorted(uncut) if b.term(x)['k'] == 'ret' or (b.term(x)['k'] == 'call' and b.term(x).get('name') in ('split_to', 'poll_next', 'encode_item') and x != eb)]
+        R.check(bool(truncs) and not exits, 'C06.R3', 'partial-frame-cut', site(b, exits[0]) if exits else site(b, eb),
+                'after a failed encode_item every path to a flush, a return or the next poll first cuts the partial frame off (truncate sites %d; uncut exits %r)' % (len(truncs), [b.loc(x) for x in exits][:4]))
+        for tx, tt in truncs:
+            if tx not in after_fail:
+                continue
+            off = strip_refs(b.origin(tt['args'][1]))
             okt = False
-            for tx, tt in truncs:
-                off = strip_refs(b.origin(tt['args'][1]))
-                if b.dominates(tx, x) and is_call(off, name='len') and mentions_local_named(b, off, 'buf'):
-                    # the len() call must be evaluated before encode_item
-                    lb = [bb for bb, lt in b.calls(name='len') if lt is off[4]]
-                    srcp = [bb for bb, st_ in b.calls(pat='Stream::poll_next')]
-                    # saved after this iteration's source poll and before encode_item (a value hoisted out of the loop
-                    # would be the length before the *first* message of the batch)
-                    okt = bool(lb) and b.dominates(lb[0], eb) and bool(srcp) and all(b.dominates(sp_, lb[0]) for sp_ in srcp)
-            R.check(okt, 'C06.R3', 'partial-frame-cut', site(b, x), 'flush after a failed encode_item is preceded by truncate(buf, offset saved in the same iteration, after the source poll and before encode_item): %r' % okt)
-        if not splits:
-            R.ok('C06.R3', 'partial-frame-cut:none', site(b, eb), 'no flush in the failure arm')
+            if is_call(off, name='len') and mentions_local_named(b, off, 'buf'):
+                # saved after this iteration's source poll and before encode_item (a value hoisted out of the loop would be
+                # the length before the *first* message of the batch)
+                lb = [bb for bb, lt in b.calls(name='len') if lt is off[4]]
+                srcp = [bb for bb, st_ in b.calls(pat='Stream::poll_next')]
+                okt = bool(lb) and b.dominates(lb[0], eb) and bool(srcp) and all(b.dominates(sp_, lb[0]) for sp_ in srcp)
+            R.check(okt, 'C06.R3', 'partial-frame-cut:offset', site(b, tx), 'truncate(buf, offset) with offset = buf.len() saved in the same iteration, after the source poll and before encode_item: %r' % okt)
         # every split_to yields the whole buffer
         for x, t in b.calls(name='split_to'):
             a = strip_refs(b.origin(t['args'][1]))
@@ -191,7 +194,7 @@ def run(R):
                 mrp = limit_pos(tonic, 'server::grpc::Grpc::<T>::map_response')
                 names = field_names(co.origin(mt['args'][mrp]))
                 R.check(names[-1:] == ['max_encoding_message_size'], 'C06.R4', 'srv:%s:encode-limit' % h, site(co, mb), 'max_message_size argument = %s' % show(co.origin(mt['args'][mrp])))
-        R.floor('C06.R4', 'map_response sites', n, 6)
+        R.floor('C06.R4', 'map_response sites', n, 4)
         mr = tonic.body('server::grpc::Grpc::<T>::map_response')
         nb, nt = mr.call1(name='new_server')
         a = mr.origin(nt['args'][limit_pos(tonic, 'codec::encode::EncodeBody::<T, U>::new_server')])
